@@ -35,8 +35,9 @@ def run(ck):
     ck.rule("C01.R3", "interest byte tables (interest/register/set_interest) mutually inverse", floor=8)
     ck.rule("C01.R4", "Interest::and: equal -> same, different -> sometimes", floor=2)
     ck.rule("C01.R5", "cached interest/max level folded over all live dispatchers", floor=6)
+    ck.rule("C01.R15", "every rebuild recomputes the max level and walks the callsites, unconditionally (std and no_std)", floor=2)
     ck.rule("C01.R14", "where first-hit registration consults the global default (no_std), installing a global default re-evaluates the cached interests", floor=1)
-    ck.rule("C01.R13", "the no_std registry re-evaluates what the std one does (interests and max level from the same calls; as C04.R7)", floor=3)
+    ck.rule("C01.R13", "the no_std registry re-evaluates what the std one does (interests and max level from the same calls; as C04.R7)", floor=4)
     ck.rule("C01.R6", "every new collector is registered (register_dispatch)", floor=6)
     ck.rule("C01.R7", "who may write MAX_LEVEL / callsite interest", floor=4)
     ck.rule("C01.R8", "STATIC_MAX_LEVEL table under each max_level feature", floor=18 if ck.tier == "thorough" else 0)
@@ -56,6 +57,7 @@ def run(ck):
     # without std the same re-evaluation (interests *and* the max level) must happen: sibling agreement (C04.R7)
     C04.r7(ck, F, rid="C01.R13")
     install_reevaluates(ck)
+    rebuild_unconditional(ck)
     # a collector behind Box/Arc/Layered/... must be asked itself: a wrapper that falls back to the trait default for
     # register_callsite / enabled / max_level_hint caches an interest the collector never gave (C09.R1/R2, instantiated)
     from rules import C09
@@ -657,3 +659,31 @@ def install_reevaluates(ck, rid="C01.R14"):
         else:
             ck.bad(rid, key, where(sgd.raw["sp"]), "callsite::register judges a first hit by dispatch::get_global(), but installing a new global default does not "
                    "re-evaluate the callsites registered since the Dispatch was created: they stay cached as `never` for a collector that accepts them", fn=sgd.path)
+
+
+def rebuild_unconditional(ck, rid="C01.R15"):
+    """`rebuild_interest` is what `rebuild_interest_cache()` (the documented way to make a changed filter or a changed
+    max_level_hint take effect) and every collector turnover end in. In both registries it must, on every returning path,
+    publish a freshly computed max level (LevelFilter::set_max) and walk the registered callsites -- "the max level was
+    recorded earlier" is exactly the stale shortcut the property forbids."""
+    for cfg in ("default", "nostd-core"):
+        F = Facts(cfg)
+        b = F.body(CS + "rebuild_interest")
+        if not ck.anchor(rid, "callsite::rebuild_interest [%s]" % cfg, b):
+            continue
+        sm = [bb for bb, t in b.calls() if t["callee"].get("path") == "tracing_core::metadata::LevelFilter::set_max"]
+        walk = [bb for bb, t in b.calls() if (t["callee"].get("method") in ("for_each", "rebuild_interest")) and "callsite" in (t["callee"].get("path") or "")]
+        hint = any(t["callee"].get("method") == "max_level_hint" for x in [b] + F.closures_of(b) for bb, t in x.calls())
+        problems = []
+        if len(sm) != 1 or not b.postdominates(sm[0], 0):
+            problems.append("LevelFilter::set_max is not executed exactly once on every path (%d sites)" % len(sm))
+        if not walk or not any(b.postdominates(w, 0) for w in walk):
+            problems.append("the callsite list is not walked on every path")
+        if not hint:
+            problems.append("no collector is asked for its max_level_hint")
+        key = "rebuild_interest recomputes the max level and walks the callsites on every path [%s]" % cfg
+        if problems:
+            ck.bad(rid, key, where(b.raw["sp"]), "; ".join(problems) + ": a max_level_hint raised at run time followed by rebuild_interest_cache() would leave the "
+                   "published maximum stale and suppress what the collector now accepts", fn=b.path)
+        else:
+            ck.ok(rid, key, fn=b.path)
